@@ -32,6 +32,7 @@
 //       the cache key computed by the library for the two addresses (guarded hook, no dereference).
 //       output: "<hex first> <hex second>"
 #include <algorithm>
+#include <chrono>
 #include <cstdint>
 #include <cstdio>
 #include <map>
@@ -50,6 +51,26 @@ void verifEquivalentVariablesCacheKey(uintptr_t v1, uintptr_t v2, uintptr_t *out
 } // namespace libcellml
 
 using namespace verif;
+
+// A single question that takes longer than this is reported (token SLOW): the search is linear in the size of the
+// connected part, a question on a model of a few thousand variables takes milliseconds.
+static const double QUERY_BUDGET_SECONDS = 5.0;
+
+struct Stopwatch
+{
+    std::chrono::steady_clock::time_point t0 = std::chrono::steady_clock::now();
+    double seconds() const
+    {
+        return std::chrono::duration<double>(std::chrono::steady_clock::now() - t0).count();
+    }
+};
+
+static std::string slowToken(const std::string &what, double s)
+{
+    char buf[160];
+    snprintf(buf, sizeof buf, "SLOW(question %s took %.1f s, budget %.0f s)", what.c_str(), s, QUERY_BUDGET_SECONDS);
+    return buf;
+}
 
 static std::string hex64(uint64_t v)
 {
@@ -158,9 +179,13 @@ static std::string graphCase(const std::vector<std::string> &f)
                 o << ',';
             }
             first = false;
+            Stopwatch sw;
             o << (va->hasEquivalentVariable(vb, true) ? '1' : '0')
               << (va->hasEquivalentVariable(vb, false) ? '1' : '0')
               << (am->areEquivalentVariables(va, vb) ? '1' : '0');
+            if (sw.seconds() > QUERY_BUDGET_SECONDS) {
+                return slowToken(q, sw.seconds());
+            }
         }
     }
     // observation of the connection graph through equivalentVariable(i) only
@@ -436,11 +461,15 @@ static std::string historyCase(const std::vector<std::string> &f)
                     o << ',';
                 }
                 first = false;
+                Stopwatch sw;
                 o << (va->hasEquivalentVariable(vb, true) ? '1' : '0')
                   << (va->hasEquivalentVariable(vb, false) ? '1' : '0')
                   << (libcellml::areEquivalentVariables(va, vb) ? '1' : '0')
-                  << (am->areEquivalentVariables(va, vb) ? '1' : '0')
-                  << (bfsConnected(va, vb) ? '1' : '0');
+                  << (am->areEquivalentVariables(va, vb) ? '1' : '0');
+                if (sw.seconds() > QUERY_BUDGET_SECONDS) {
+                    return slowToken(ev, sw.seconds());
+                }
+                o << (bfsConnected(va, vb) ? '1' : '0');
                 continue;
             }
             dirty = true;
@@ -541,8 +570,10 @@ static std::string oneCase(const std::string &line)
 int main(int argc, char **argv)
 {
     if (argc < 2) {
-        fprintf(stderr, "usage: c18_driver <case file>\n");
+        fprintf(stderr, "usage: c18_driver <case file> [seconds per case]\n");
         return 2;
     }
-    return runCases(readLines(argv[1]), oneCase, 30, 16);
+    // argv[2]: seconds allowed for one case (default 30); a case of the quick tier takes well under 0.1 s
+    unsigned perCase = argc > 2 ? unsigned(std::stoul(argv[2])) : 30;
+    return runCases(readLines(argv[1]), oneCase, perCase, 16);
 }
